@@ -53,7 +53,7 @@ structure HCase where
   chart : Chart
   ops : List (Nat × Nat)
 
-def parseCase : P HCase := do
+def parseChart : P (Cfg × Tab × Chart) := do
   let code ← nat
   let n ← nat
   let parent ← nats n
@@ -65,11 +65,6 @@ def parseCase : P HCase := do
   for _ in [0:nR] do
     let s ← nat; let sg ← nat; let k ← nat; let t ← nat
     rl := rl ++ [(s, sg, k, t)]
-  let nOps ← nat
-  let mut ops := []
-  for _ in [0:nOps] do
-    let o ← nat; let a ← nat
-    ops := ops ++ [(o, a)]
   let tab : Tab := ⟨n, parent⟩
   let chart : Chart := {
     react := fun s sg =>
@@ -84,7 +79,16 @@ def parseCase : P HCase := do
       | none => none
     exitH := fun s => (exith[sid s - 1]?).getD 1 = 1
     depth := depth }
-  pure ⟨cfgOf code, tab, chart, ops⟩
+  pure (cfgOf code, tab, chart)
+
+def parseCase : P HCase := do
+  let (cfg, tab, chart) ← parseChart
+  let nOps ← nat
+  let mut ops := []
+  for _ in [0:nOps] do
+    let o ← nat; let a ← nat
+    ops := ops ++ [(o, a)]
+  pure ⟨cfg, tab, chart, ops⟩
 
 def showRes (tag : String) (r : Res) : String :=
   s!"{tag} state={sid r.state} temp={sid r.temp} log={showLog r.log}"
